@@ -48,6 +48,12 @@ def grid_seqs(n, salt):
     out = []
     for i in range(n):
         out.append(base[(i * 7 + salt) % len(base)])
+    # a few sequences that are new in (almost) every call: one-substitution neighbours of pool members, so that consecutive
+    # calls in one process see overlapping but not identical lists
+    for i in range(min(4, n)):
+        s = base[(i + salt) % len(base)]
+        pos = (n + i) % len(s)
+        out[(i * 5) % n] = s[:pos] + G.AA[(n * 3 + i * 7 + salt) % 20] + s[pos + 1:]
     return out
 
 
@@ -82,8 +88,11 @@ def check(case, rec):
     ctx = f"mode={mode} k={k} n={len(seqs)} n_cpu={n_cpu} compression={comp} max_returns={m}"
     if m is None:
         same_multiset("config-vs-oracle", got, want, ctx)
-        ref = trip(call("kdtree-ref", kd, seqs, k, mode, maxc, n_cpu=1, compression=1))
-        same_multiset("config-vs-reference-run", got, ref, ctx)
+        if comp == 1:
+            # (for compressed runs the brute-force oracle alone decides: an uncompressed reference run in between would
+            #  reset whatever the code under test remembers from one compressed call to the next)
+            ref = trip(call("kdtree-ref", kd, seqs, k, mode, maxc, n_cpu=1, compression=1))
+            same_multiset("config-vs-reference-run", got, ref, ctx)
         return
     wantset = set(want)
     per = defaultdict(list)
@@ -105,6 +114,23 @@ def check(case, rec):
                 raise Violation("max_returns-not-nearest", f"{ctx}: sequence {i} omits a neighbour at {min(omitted)} but reports one at {worst}")
 
 
+def dense_seqs(n):
+    """All single substitutions of one founder (truncated to n): every pair is within distance 2."""
+    f = "CASSLGQAYEQY"
+    out = [f]
+    for i in range(len(f)):
+        for a in G.AA:
+            if a != f[i]:
+                out.append(f[:i] + a + f[i + 1:])
+    return out[:n]
+
+
+def enum_dense(tier):
+    for n, n_cpu, m, k in ((150, 2, 3, 2), (229, 3, 2, 2), (229, 1, 4, 1), (150, 4, None, 1)):
+        yield {"seqs": dense_seqs(n), "k": k, "mode": "default", "n_cpu": n_cpu, **({"max_returns": m} if m else {})}
+    yield {"seqs": dense_seqs(140), "k": 2, "mode": "hamming", "n_cpu": 2, "max_returns": 2}
+
+
 def enum_grid(tier):
     if tier == "quick":
         sizes = [1, 2, 3, 4, 5, 7, 9, 12, 16, 17, 23]
@@ -116,6 +142,9 @@ def enum_grid(tier):
         for c in cpus:
             mode = ["default", "hamming", "double"][(n + c) % 3]
             yield {"n": n, "salt": (3 * n + c) % 16, "n_cpu": c, "k": 1 + (n + c) % 2, "mode": mode}
+            # the same pool of sequences under compressions that share a histogram dimension (5/6 -> 4 bins, 7/8/9 -> 3, ...)
+            yield {"n": n, "salt": (3 * n + c) % 16, "n_cpu": 1 + (c > 4), "k": 1 + (n % 3 == 0), "mode": mode,
+                   "compression": [5, 6, 7, 8, 9, 10, 13, 19][(n + c) % 8]}
             if tier == "thorough":
                 mode2 = ["default", "hamming", "double"][(n + c + 1) % 3]
                 yield {"n": n, "salt": (n + 5 * c) % 16, "n_cpu": c, "k": 2, "mode": mode2, "compression": 1 + (n * c) % 7}
@@ -146,5 +175,6 @@ def random_case(draw, tier="quick"):
 
 SUBS = [
     Sub("grid", check, enum=enum_grid),
+    Sub("dense", check, enum=enum_dense),
     Sub("random", check, strategy=lambda tier: random_case(tier), budget=(900, 9000)),
 ]
